@@ -1,3 +1,5 @@
 import SLV.Num.Scalar
 import SLV.Num.XQ
 import SLV.Num.Floats
+import SLV.Model.MArr
+import SLV.Model.MArrProg
